@@ -9,7 +9,7 @@ import sys
 import time
 
 VERIF = os.path.dirname(os.path.dirname(os.path.abspath(__file__)))
-WT = "/tmp/benignrepo"
+WT = os.environ.get("BENIGN_WT", "/tmp/benignrepo")
 ALL = ["C%02d" % i for i in range(1, 21)]
 
 
@@ -33,7 +33,7 @@ def one(bid, checks):
     if r.returncode:
         print("patch does not apply:", r.stdout)
         return 2
-    env = dict(os.environ, VERIF_ALT_REPO=WT, VERIF_ALT_TAG="benign")
+    env = dict(os.environ, VERIF_ALT_REPO=WT, VERIF_ALT_TAG=os.environ.get("BENIGN_TAG", "benign"))
     out = []
     for c in checks:
         t = time.time()
